@@ -37,6 +37,8 @@ def adjust_verdict(op, impl, verdict):
     normally or with an exception? (their value-level verdicts belong to C07/C12/C13/C16)"""
     if op.startswith("load.any"):
         return verdict
+    if op.startswith("iso.") and verdict.startswith("known:chrono-int64-limit-ub"):
+        return verdict                      # signed overflow next to the int64 limits: recorded (C15), also a C02 matter
     if impl.startswith("crash:") or impl in ("terminate", "timeout") or "H" in (impl.split(" ")[1:2] or [""])[0:1]:
         return "bad:" + impl.replace(" ", "_")
     return "ok"
@@ -69,6 +71,12 @@ def gen(tier, rng, boost=1):
             ops.append(f"load.any mp {src} {target} skip skip {hexb([0x91] * 500 + [0x01])}")
             ops.append(f"load.any mp {src} {target} skip skip {hexb([0xDB, 0x7F, 0xFF, 0xFF, 0xFF, 0x41])}")
             ops.append(f"load.any mp {src} {target} skip skip {hexb([0xC6, 0x7F, 0xFF, 0xFF, 0xFF, 0x41])}")
+    # declared lengths far beyond the document, with the first payload bytes present (str 32 / bin 32 / str 16 …), every target, both sources
+    for target in LOAD_TARGETS["mp"]:
+        for src in ("mem", "stream"):
+            for d in ([0xDB, 0x40, 0, 0, 0, 0x61, 0x62, 0x63], [0xC6, 0x40, 0, 0, 0, 1, 2, 3], [0xDB, 0x7F, 0xFF, 0xFF, 0xF0, 0x61], [0xDA, 0xFF, 0xFF, 0x61],
+                      [0x81, 0xDB, 0x40, 0, 0, 0, 0x61], [0x91, 0xDB, 0x20, 0, 0, 0, 0x61, 0x62], [0xDD, 0, 0x40, 0, 0, 1, 2], [0xDF, 0, 0x40, 0, 0, 0xA1, 0x61, 1]):
+                ops.append(f"load.any mp {src} {target} skip skip {hexb(d)}")
     # the two recorded resource findings (witnesses)
     ops.append(f"load.any mp mem vi throw throw {hexb([0xDD, 0xFF, 0xFF, 0xFF, 0xFF])}")
     ops.append(f"load.any mp mem i32 skip skip {hexb([0x91] * (300000 if q else 2000000))}")
@@ -79,6 +87,13 @@ def gen(tier, rng, boost=1):
         sub = mod.gen("quick", _r.Random(rng.randrange(10 ** 9)), 1)
         rng.shuffle(sub)
         ops += sub[: take if q else take * 6]
+    # ISO-8601 texts fed to Convert::To<time_point|duration|time_t|tm> (C15's grammar-based and mutated strings; the harness hands them
+    # over as views that are not NUL-terminated): all the very short ones, and a sample of the rest
+    from . import C15
+    sub = [o for o in C15.gen("quick", _r.Random(rng.randrange(10 ** 9)), 1) if o.startswith("iso.parse")]
+    short = [o for o in sub if len(o.split(" ")[-1]) <= 10]
+    rng.shuffle(sub)
+    ops += short + sub[: 1500 if q else 9000]
     # stream input that ENDS inside a multi-byte scalar / length field which straddles the 256-byte cache boundary of the binary stream
     # reader (the refill delivers only part of the block): must be a parsing error, never a block made of stale buffer bytes
     from . import mpgen as M
